@@ -281,6 +281,200 @@ def body(rng, tp, pays, steps):
     return ops
 
 
+# --------------------------------------------------------------------------- asynchronous persistence at the payer
+
+def first_hops(tp):
+    return [c + 1 for c, (a, b) in enumerate(tp["chans"]) if a == 0 or b == 0]
+
+
+def with_async(script, rng):
+    """A random schedule in which the payer's persister reports writes InProgress for a while (all of its channels or
+    some), the user reports them complete in any order, and the payer's channel configuration changes."""
+    ops = script["ops"]
+    if any(o["op"] == "restart" and o.get("use") == "stale" for o in ops) or len(ops) < 4:
+        return script
+    tp = topo(script["cfg"]["topo"], script["cfg"]["n"])
+    fh = first_hops(tp)
+    out = list(ops)
+    for _ in range(rng.randint(2, 7)):
+        pos = rng.randrange(0, len(out) - 1)
+        r = rng.random()
+        if r < 0.35:
+            o = {"op": "persist_mode", "node": 0, "mode": "inprogress"}
+            if rng.random() < 0.5:
+                o["chans"] = rng.sample(fh, rng.randint(1, len(fh)))
+        elif r < 0.50:
+            o = {"op": "persist_mode", "node": 0, "mode": "completed"}
+        elif r < 0.85:
+            o = {"op": "complete", "node": 0, "which": rng.choice(["oldest", "newest", "all", "all"])}
+            if rng.random() < 0.4:
+                o["chan"] = rng.choice(fh)
+        elif r < 0.95:
+            o = {"op": "config", "node": 0, "chan": rng.choice(fh)}
+            if rng.random() < 0.7:
+                o["max_dust"] = rng.choice([0, 0, 100000, 5000000])
+        else:
+            o = {"op": "feerate", "node": 0, "sat_per_kw": rng.choice([253, 500, 2000])}
+        out.insert(pos, o)
+    return {"cfg": script["cfg"], "ops": out, "family": "rand-async"}
+
+
+def tail_steps(rng, tp, pays, extra, steps):
+    """What follows the send of a structured schedule: the steps in `extra` (each a list of ops) in a random order, mixed
+    with ordinary traffic."""
+    seqs = [list(x) for x in extra]
+    for _ in range(steps):
+        seqs.append([o for o in body(rng, tp, pays, 1) if not (o["op"] == "restart" and o.get("use") == "stale")])
+    rng.shuffle(seqs)
+    return [o for sq in seqs for o in sq]
+
+
+def wipref_script(rng):
+    """A multi-path send whose first hops answer differently: the monitor write of some is in flight (the part is an
+    HTLC of the payment although nothing is on the wire yet), others refuse the part at once (peer disconnected, or the
+    amount is over what the channel can send), the rest take it."""
+    kind = rng.choice(["fan", "fan", "par", "fan2"])
+    n = rng.choice([2, 3]) if kind != "fan2" else 2
+    tp = topo(kind, n)
+    dst = tp["dst"]
+    k = rng.randint(2, n)
+    rts = rng.sample(range(n), k)
+    roles = [rng.choice(["wip", "ref", "sent"]) for _ in rts]
+    if rng.random() < 0.8:
+        a, b = rng.sample(range(k), 2)
+        roles[a], roles[b] = "wip", "ref"
+    how = [rng.choice(["down", "down", "over"]) if r == "ref" else None for r in roles]
+    amts = [rng.choice([1, 2, 3, 5]) * MSAT + rng.randint(0, 999) * 1000 for _ in rts]
+    if rng.random() < 0.1:
+        amts[0] = rng.randint(2, 300) * 1000
+    samts = [{"limit": rng.choice([1000, 1000, 5000000])} if h == "over" else a for a, h in zip(amts, how)]
+    over = any(h == "over" for h in how)
+    ops = []
+    if rng.random() < 0.5:
+        ops.append({"op": "hold", "node": 0, "on": True})
+    ops.append({"op": "reg", "node": dst, "reg": 1, "amt": None if over else sum(amts), "expiry": 3600, "method": rng.choice(["user", "ldk"])})
+    peers = [path_nodes(tp, tp["routes"][r])[1] for r in rts]
+    fh = [tp["routes"][r][0] for r in rts]
+    down = [(0, peers[i]) for i in range(k) if how[i] == "down"] if kind != "par" else []
+    if kind == "par" and any(h == "down" for h in how):
+        # (one peer: a disconnection refuses every part) -- refuse by amount instead
+        samts = [{"limit": 1000} if h == "down" else a for a, h in zip(samts, how)]
+        ops[-1]["amt"] = None
+    for a, b in down:
+        ops.append({"op": "disconnect", "a": a, "b": b})
+    wip = [fh[i] for i in range(k) if roles[i] == "wip"]
+    if wip:
+        ops.append({"op": "persist_mode", "node": 0, "mode": "inprogress", "chans": wip})
+    send = {"op": "send", "from": 0, "id": 1, "reg": 1, "paths": [tp["routes"][r] for r in rts], "amts": samts}
+    r = rng.random()
+    if r < 0.5:
+        send["retries"] = rng.choice([0, 1, 1, 2])
+    ops.append(send)
+    pays = [{"pid": 1, "reg": 1, "rts": rts, "send": send}]
+    extra = [[{"op": "reconnect", "a": a, "b": b}] for a, b in down]
+    if wip and rng.random() < 0.8:
+        extra.append([{"op": "persist_mode", "node": 0, "mode": "completed"}])
+    for c in wip:
+        extra.append([{"op": "complete", "node": 0, "chan": c, "which": rng.choice(["all", "oldest"])}])
+    extra.append([{"op": "handle", "node": 0}])
+    if rng.random() < 0.5:
+        extra.append([dict(send)])                              # the same id again
+    if rng.random() < 0.3:
+        extra.append([{"op": "abandon", "node": 0, "id": 1}])
+    if rng.random() < 0.5:
+        extra.append([{"op": "tick", "node": dst}] * 3 + [{"op": "pump"}])     # the recipient gives up on an incomplete set
+    if rng.random() < 0.3 and wip and kind != "par":
+        i = roles.index("wip")
+        extra.append([{"op": "disconnect", "a": 0, "b": peers[i]}, {"op": "reconnect", "a": 0, "b": peers[i]}])
+    ops += tail_steps(rng, tp, pays, extra, rng.randint(0, 6))
+    ops.append({"op": "settle"})
+    if rng.random() < 0.6:
+        ops += [{"op": "tick", "node": dst}] * 3 + [{"op": "settle"}]
+    return {"cfg": tp["cfg"], "ops": ops, "family": "wipref"}
+
+
+def hcfail_script(rng):
+    """A part parked in the holding cell of the payer's first-hop channel -- the channel waits for the peer's revocation,
+    or (asynchronous persistence) the write for the peer's commitment_signed is in flight -- while something happens
+    that may make it unsendable: the channel's dust-exposure limit is lowered under a dust-sized part, the peer offers
+    an HTLC of its own against a part sized at the channel's limit, the peer disconnects.  Then the channel moves again."""
+    kind = rng.choice(["line", "line", "par", "fan", "fan"])
+    n = {"line": rng.choice([2, 3]), "par": rng.choice([1, 2]), "fan": rng.choice([2, 3])}[kind]
+    tp = topo(kind, n)
+    dst = tp["dst"]
+    nroutes = len(tp["routes"])
+    k = rng.randint(1, nroutes)
+    rts = rng.sample(range(nroutes), k)
+    x = 0                                        # the part that is parked
+    c = tp["routes"][rts[x]][0]
+    peer = path_nodes(tp, tp["routes"][rts[x]])[1]
+    why = rng.choice(["write", "write", "raa"])
+    unsend = rng.choice(["dust", "dust", "limit", "limit", "none", "disc"])
+    if unsend == "limit":
+        why = "write"
+    amts = [rng.choice([1, 2, 3, 5]) * MSAT + rng.randint(0, 999) * 1000 for _ in rts]
+    samts = list(amts)
+    if unsend == "dust" or (unsend != "limit" and rng.random() < 0.2):
+        amts[x] = samts[x] = rng.randint(2, 300) * 1000
+    if unsend == "limit":
+        samts[x] = {"limit": rng.choice([0, 0, 0, -1000, -50000])}
+    ops = []
+    if rng.random() < 0.4:
+        ops.append({"op": "hold", "node": 0, "on": True})
+    ops += [{"op": "reg", "node": dst, "reg": 1, "amt": None if unsend == "limit" else sum(amts), "expiry": 3600, "method": rng.choice(["user", "ldk"])},
+            {"op": "reg", "node": peer, "reg": 7, "amt": MSAT, "expiry": 3600},
+            {"op": "send", "from": 0, "id": 7, "reg": 7, "paths": [[c]], "amts": [MSAT]}]
+    if why == "write":
+        ops += [{"op": "deliver_until", "from": 0, "to": peer, "kind": "commitment_signed"},
+                {"op": "deliver_until", "from": peer, "to": 0, "kind": "revoke_and_ack"},
+                {"op": "persist_mode", "node": 0, "mode": "inprogress", "chans": [c]} if rng.random() < 0.7 else {"op": "persist_mode", "node": 0, "mode": "inprogress"},
+                {"op": "deliver_until", "from": peer, "to": 0, "kind": "commitment_signed"}]
+        if rng.random() < 0.7:
+            ops.append({"op": "persist_mode", "node": 0, "mode": "completed"})
+    send = {"op": "send", "from": 0, "id": 1, "reg": 1, "paths": [tp["routes"][r] for r in rts], "amts": samts}
+    if rng.random() < 0.4:
+        send["retries"] = rng.choice([0, 1, 2])
+    ops.append(send)
+    pays = [{"pid": 1, "reg": 1, "rts": rts, "send": send}]
+    if rng.random() < 0.25:
+        ops += body(rng, tp, pays, rng.randint(1, 3))
+        ops = [o for o in ops if o["op"] != "restart"]
+    if unsend == "dust":
+        ops.append({"op": "config", "node": 0, "chan": c, "max_dust": rng.choice([0, 0, 1000])})
+    elif unsend == "limit":
+        ops += [{"op": "reg", "node": 0, "reg": 8, "amt": 2 * MSAT, "expiry": 3600},
+                {"op": "send", "from": peer, "id": 8, "reg": 8, "paths": [[c]], "amts": [2 * MSAT]},
+                {"op": "deliver_until", "from": peer, "to": 0, "kind": "update_add_htlc"}]
+    elif unsend == "disc":
+        ops += [{"op": "disconnect", "a": 0, "b": peer}]
+        if rng.random() < 0.5:
+            ops.append({"op": "reconnect", "a": 0, "b": peer})
+    if rng.random() < 0.15:
+        ops += [{"op": "feerate", "node": 0, "sat_per_kw": rng.choice([500, 1000])}, {"op": "tick", "node": 0}]
+    # the channel moves again
+    rel = [{"op": "complete", "node": 0, "chan": c, "which": "all"}] if why == "write" else \
+          [{"op": "deliver_until", "from": peer, "to": 0, "kind": "revoke_and_ack"}]
+    extra = [rel, [{"op": "handle", "node": 0}], [{"op": "claim", "reg": 7}, {"op": "pump"}]]
+    if unsend == "dust" and rng.random() < 0.7:
+        extra.append([{"op": "config", "node": 0, "chan": c}])
+    if unsend == "limit":
+        extra.append([{"op": "claim", "reg": 8}, {"op": "pump"}])
+    if rng.random() < 0.4:
+        extra.append([dict(send)])
+    if rng.random() < 0.25:
+        extra.append([{"op": "abandon", "node": 0, "id": 1}])
+    if rng.random() < 0.7:
+        ops += rel
+    ops += tail_steps(rng, tp, pays, extra, rng.randint(0, 5))
+    ops += [{"op": "config", "node": 0, "chan": c}, {"op": "settle"}, {"op": "claim", "reg": 7}]
+    if unsend == "limit":
+        ops.append({"op": "claim", "reg": 8})
+    ops.append({"op": "settle"})
+    if rng.random() < 0.4:
+        ops += [{"op": "tick", "node": dst}] * 3 + [{"op": "settle"}]
+    return {"cfg": tp["cfg"], "ops": ops, "family": "hcfail"}
+
+
 # --------------------------------------------------------------------------- engine + validation
 
 def run_engine(pid, binpath, scripts, seed, tag, procs=8):
@@ -319,6 +513,9 @@ def run_engine(pid, binpath, scripts, seed, tag, procs=8):
     return out, summ, index
 
 
+ASYNC_EVENTS = ("persist", "complete", "persist_mode", "config")
+
+
 def events_of_run(fail):
     return fail["run_events"]
 
@@ -326,13 +523,20 @@ def events_of_run(fail):
 def attribute(pid, wd, fail, other_module, tag):
     """Is the rejected run also rejected by the other half's trace spec (at or before this event)?"""
     p = os.path.join(wd, "attr-%s.ndjson" % tag)
+    orig = []       # position in the written file -> position in the run
     with open(p, "w") as f:
-        for r in fail["run_events"]:
+        for k, r in enumerate(fail["run_events"]):
             if r["ev"] == "restart" and r.get("stale"):
                 break       # the other half's spec does not cover what follows a stale restart (closed channels)
+            if r["ev"] in ASYNC_EVENTS:
+                continue    # ... nor the payer's persister / configuration (it has no rule about them)
             f.write(json.dumps(r) + "\n")
+            orig.append(k + 1)
     _, fl = vlib.validate_trace(pid, other_module, other_module + ".cfg", p, max_failures=1, tag="attr")
-    return bool(fl) and fl[0]["pos_in_run"] <= fail["pos_in_run"]
+    if not fl:
+        return False
+    q = fl[0]["pos_in_run"]
+    return (orig[q - 1] if 0 < q <= len(orig) else q) <= fail["pos_in_run"]
 
 
 # --------------------------------------------------------------------------- PaySendMC behaviours -> paynet scripts
@@ -342,7 +546,14 @@ def compile_send_script(s, rng):
     compiled to engine ops: part k of a payment travels A -chan k-> B_k -chan K+k-> D, or, in the deep
     variant, A -> B_k -> C_k -> D (a part that `failhop` fails is then failed by C_k, the second of two
     forwarding nodes); the payer A (node 0) handles events only when the behaviour says so; resolutions are
-    handed to A one by one (`barrier`), so that `deliver` / `dup` / `commit` keep their meaning."""
+    handed to A one by one (`barrier`), so that `deliver` / `dup` / `commit` keep their meaning.
+
+    The answers of the first-hop channels at send time (`ocs`) are arranged beforehand: "wip" -- the payer's
+    persister reports the writes of that channel InProgress; "ref" -- the peer is disconnected; "hc" -- the
+    channel is made busy by a small payment to B_k (its revocation outstanding, or -- asynchronous persistence --
+    the write for B_k's commitment_signed in flight), so that the part is parked in the holding cell.  A parked part
+    that `release` fails back is dust-sized and the channel's dust-exposure limit is lowered to nothing before the
+    holding cell is freed, or it is sized at the channel's limit and B_k offers an HTLC of its own meanwhile."""
     K = s["k"]
     deep = rng.random() < 0.4
     D = 2 * K + 1 if deep else K + 1
@@ -356,35 +567,109 @@ def compile_send_script(s, rng):
     ops = [{"op": "hold", "node": 0, "on": True}]
     stale = False
     base, regs, first_reg, cur = {}, {}, {}, {}
+    # how a parked part that is failed back becomes unsendable
+    unsend = {}
+    for o in s["ops"]:
+        if o["op"] == "release" and o["fate"] == "fail":
+            unsend[(o["p"], o["k"])] = rng.choice(["dust", "dust", "limit"])
+    busy = {}            # branch -> why its channel cannot move ("raa" | "write")
+    primers = []         # registrations of the small payments that keep a channel busy
+    npr = 0
+    limit_used = set()
     for o in s["ops"]:
         t = o["op"]
         if t == "send":
             p, n = o["p"], o["n"]
+            ocs = o.get("ocs") or ["sent"] * n
+            roc = o.get("roc", "sent")
             if p not in base:
                 base[p] = [rng.choice([1, 2, 3, 5]) * MSAT + (7 * p + k) * 1000 for k in range(1, K + 1)]
                 if rng.random() < 0.1:
                     base[p][0] = (50 + 7 * p) * 1000          # a dust-sized part
-            amts = base[p][:n]
-            if (p, n) not in regs:
-                r = {"op": "reg", "node": D, "reg": 10 * p + n, "amt": sum(amts), "expiry": 3600}
+                for k in range(1, K + 1):
+                    if unsend.get((p, k)) == "dust":
+                        base[p][k - 1] = (60 + 7 * p + k) * 1000
+            amts = list(base[p][:n])
+            lim = [k for k in range(1, n + 1) if unsend.get((p, k)) == "limit" and ocs[k - 1] == "hc"]
+            key = (p, n, bool(lim))
+            if key not in regs:
+                rid = 10 * p + n + (5 if lim else 0)
+                r = {"op": "reg", "node": D, "reg": rid, "amt": None if lim else sum(amts), "expiry": 3600}
                 if p in first_reg:
                     r["same_hash_as"] = first_reg[p]
                 ops.append(r)
-                regs[(p, n)] = 10 * p + n
-                first_reg.setdefault(p, 10 * p + n)
-            if o.get("retries", 0) > 0:
+                regs[key] = rid
+                first_reg.setdefault(p, rid)
+            free = list(range(n + 1, K + 1))
+            if o.get("retries", 0) > 0 and not o.get("planted", False):
                 # a payment with automatic retries, routed by the payer's router: the first attempt goes over
                 # branch 1 (the first hops of the other branches are down while it is sent)
                 for j in range(2, K + 1):
                     ops.append({"op": "disconnect", "a": 0, "b": j})
-                ops.append({"op": "send", "from": 0, "id": p, "reg": regs[(p, n)], "auto": True, "to": D, "amt": amts[0],
+                ops.append({"op": "send", "from": 0, "id": p, "reg": regs[key], "auto": True, "to": D, "amt": amts[0],
                             "retries": o["retries"]})
                 for j in range(2, K + 1):
                     ops += [{"op": "reconnect", "a": 0, "b": j}, {"op": "pump", "links": [[0, j]], "barrier": 0}]
             else:
-                ops.append({"op": "send", "from": 0, "id": p, "reg": regs[(p, n)],
-                            "paths": [path(k) for k in range(1, n + 1)], "amts": amts})
-            cur[p] = regs[(p, n)]
+                # ---- the channels answer as the behaviour says
+                for k in range(1, n + 1):
+                    if ocs[k - 1] == "hc" and k not in busy:
+                        npr += 1
+                        why = "write" if unsend.get((p, k)) == "limit" else rng.choice(["raa", "write"])
+                        pr = 900 + npr
+                        ops += [{"op": "reg", "node": k, "reg": pr, "amt": MSAT + npr * 1000, "expiry": 3600},
+                                {"op": "send", "from": 0, "id": 50 + npr, "reg": pr, "paths": [[k]], "amts": [MSAT + npr * 1000]}]
+                        if why == "write":
+                            ops += [{"op": "deliver_until", "from": 0, "to": k, "kind": "commitment_signed"},
+                                    {"op": "deliver_until", "from": k, "to": 0, "kind": "revoke_and_ack"},
+                                    {"op": "persist_mode", "node": 0, "mode": "inprogress", "chans": [k]},
+                                    {"op": "deliver_until", "from": k, "to": 0, "kind": "commitment_signed"},
+                                    {"op": "persist_mode", "node": 0, "mode": "completed"}]
+                        busy[k] = why
+                        primers.append(pr)
+                wip = [k for k in range(1, n + 1) if ocs[k - 1] == "wip"] + (free if roc == "wip" else [])
+                down = [k for k in range(1, n + 1) if ocs[k - 1] == "ref"] + (free if roc == "ref" else [])
+                for k in down:
+                    ops.append({"op": "disconnect", "a": 0, "b": k})
+                if wip:
+                    ops.append({"op": "persist_mode", "node": 0, "mode": "inprogress", "chans": wip})
+                send = {"op": "send", "from": 0, "id": p, "reg": regs[key],
+                        "paths": [path(k) for k in range(1, n + 1)],
+                        "amts": [{"limit": 0} if k in lim else amts[k - 1] for k in range(1, n + 1)]}
+                if o.get("retries", 0) > 0:
+                    send["retries"] = o["retries"]
+                ops.append(send)
+                if wip:
+                    ops.append({"op": "persist_mode", "node": 0, "mode": "completed"})
+                for k in down:
+                    ops += [{"op": "reconnect", "a": 0, "b": k}, {"op": "pump", "links": [[0, k]], "barrier": 0}]
+            cur[p] = regs[key]
+        elif t == "complete":
+            ops.append({"op": "complete", "node": 0, "chan": o["k"], "which": "all"})
+        elif t == "release":
+            p, k = o["p"], o["k"]
+            why = busy.pop(k, "raa")
+            free = [j for j in range(1, K + 1) if j != k]
+            if o["fate"] == "fail":
+                if unsend.get((p, k)) == "limit" and why == "write":
+                    # B_k offers an HTLC of its own while the payer's part is parked: the payer (who pays the commitment
+                    # fee) can no longer afford the part it sized at the limit
+                    npr += 1
+                    ops += [{"op": "reg", "node": 0, "reg": 900 + npr, "amt": 2 * MSAT, "expiry": 3600},
+                            {"op": "send", "from": k, "id": 50 + npr, "reg": 900 + npr, "paths": [[k]], "amts": [2 * MSAT]},
+                            {"op": "deliver_until", "from": k, "to": 0, "kind": "update_add_htlc"}]
+                else:
+                    ops.append({"op": "config", "node": 0, "chan": k, "max_dust": 0})
+            if o.get("roc") == "wip":
+                ops.append({"op": "persist_mode", "node": 0, "mode": "inprogress", "chans": free})
+            if why == "write":
+                ops.append({"op": "complete", "node": 0, "chan": k, "which": "all"})
+            else:
+                ops.append({"op": "deliver_until", "from": k, "to": 0, "kind": "revoke_and_ack"})
+            if o.get("roc") == "wip":
+                ops.append({"op": "persist_mode", "node": 0, "mode": "completed"})
+            if o["fate"] == "fail":
+                ops.append({"op": "config", "node": 0, "chan": k})
         elif t == "arrive":
             ops.append({"op": "pump", "links": links(o["k"]), "barrier": 0})
         elif t == "failhop":
@@ -402,7 +687,12 @@ def compile_send_script(s, rng):
                     {"op": "pump", "links": [[0, k]], "barrier": 0},
                     {"op": "deliver_until", "from": k, "to": 0, "kind": "resolution"}]
         elif t == "commit":
+            wip = o.get("roc") == "wip"
+            if wip:
+                ops.append({"op": "persist_mode", "node": 0, "mode": "inprogress", "chans": [j for j in range(1, K + 1) if j != o["k"]]})
             ops.append({"op": "pump", "links": [[0, o["k"]]], "barrier": 0})
+            if wip:
+                ops.append({"op": "persist_mode", "node": 0, "mode": "completed"})
         elif t == "handle":
             ops.append({"op": "handle", "node": 0})
         elif t == "tick":
@@ -420,6 +710,10 @@ def compile_send_script(s, rng):
     if stale:
         # the chain settles: commitments confirm, HTLC outputs are claimed with the preimage or time out
         ops.append({"op": "settle_chain"})
+    if primers:
+        # the small payments that kept a channel busy are claimed by their recipients
+        ops += [{"op": "complete", "node": 0, "which": "all"}, {"op": "pump", "barrier": 0}]
+        ops += [{"op": "claim", "reg": r} for r in primers]
     ops.append({"op": "settle"})
     return {"cfg": {"topo": "fan2" if deep else "fan", "n": K}, "ops": ops}
 
@@ -665,7 +959,7 @@ SPECS = {
     "C03": {"trace": "PaySendTrace", "other": "PayRecvTrace", "mc": "PaySendMC",
             "actions": ["MObs", "MSend", "MAbandon", "MHandle", "MTick", "MSave", "MRestart", "MArrive", "MFailHop",
                         "MClaim", "MFailR", "MDeliver", "MDup", "MCommit", "MQuiet",
-                        "MRestartStale", "MConfirm", "MChainClaim", "MChainTimeout"]},
+                        "MRestartStale", "MConfirm", "MChainClaim", "MChainTimeout", "MComplete", "MRelease"]},
     "C04": {"trace": "PayRecvTrace", "other": None, "mc": "PayRecvMC",
             "actions": ["MObs", "MPart", "MTick", "MClaim", "MFailBack", "MQuiet"]},
 }
@@ -678,10 +972,12 @@ def trace_stats(path):
     def inc(k, n=1):
         c[k] = c.get(k, 0) + n
     cur, sent, failed = None, {}, {}
+    addseen, wipnow = set(), set()
     with open(path) as f:
         for ln in f:
             r = json.loads(ln)
             if r["run"] != cur:
+                addseen, wipnow = set(), set()
                 if any(v > 1 for v in sent.values()):
                     inc("runs_with_repeated_PaymentSent")
                 if any(v > 1 for v in failed.values()):
@@ -704,8 +1000,13 @@ def trace_stats(path):
                 elif r["kind"] == "PaymentFailed":
                     failed[r["pid"]] = failed.get(r["pid"], 0) + 1
                 elif r["kind"] == "PaymentPathFailed":
+                    if not r["initial"] and r["path"] and r["blamed"] == r["path"][0] and r["node"] == 0 and \
+                            not any(k[0] == r["hash"] and k[1] == r["path"][0] for k in addseen):
+                        inc("pathfailed_never_offered")       # failed inside the payer (freed from a holding cell, unsendable)
                     if r["initial"]:
                         inc("pathfailed_initial")
+                        if wipnow:
+                            inc("pathfailed_initial_while_write_in_flight")
                     elif r["blamed"] == 0:
                         inc("pathfailed_no_channel")
                     elif r["blamed"] in r["path"]:
@@ -721,6 +1022,8 @@ def trace_stats(path):
                 if any(x["amt"] < x.get("oamt", x["amt"]) for x in r["parts"]):
                     inc("send_skimmed_part")
             elif e == "msg":
+                if r["kind"] == "update_add_htlc" and r["from"] == 0:
+                    addseen.add((r["hash"], r["chan"]))
                 if r["kind"] != "update_add_htlc":
                     inc("msg_" + r["kind"])
                 elif r.get("skim", 0) > 0:
@@ -738,6 +1041,12 @@ def trace_stats(path):
                     inc("runs_with_underpay_channels")
             elif e == "chain":
                 inc("chain_commitment" if r["what"] == "commitment" else "chain_htlc_claimed" if r["preimage"] else "chain_htlc_timeout")
+            elif e in ("persist", "complete", "config"):
+                inc(e)
+                if e == "persist":
+                    wipnow.add((r["node"], r["chan"], r["id"]))
+                elif e == "complete":
+                    wipnow.discard((r["node"], r["chan"], r["id"]))
     return c
 
 
@@ -837,7 +1146,11 @@ def run_spec_mutants(pid, module, cfgs):
 
 
 def run_check(pid, tier, seed, mc_cfgs, compile_fn, random_fn, n_tlc, n_rand, need, selftests, assumptions, pick=None, probes=(),
-              mc_mutants=()):
+              mc_mutants=(), families=(), extra_parts=(), need_feat=()):
+    """families: (name, fn(rng) -> script, count): structured schedules, run as a batch of their own;
+    extra_parts: (name, fn(pid, tier, seed, wd) -> (violations, coverage)): further parts of the check with their own
+    specification and engine (the contract of chan_common.run_check's extra_parts);
+    need_feat: features (`feat` of a printed behaviour) that the behaviours handed to the engine must show."""
     t0 = time.time()
     wd = vlib.workdir(pid)
     bins = vlib.build(["paynet"])
@@ -846,10 +1159,27 @@ def run_check(pid, tier, seed, mc_cfgs, compile_fn, random_fn, n_tlc, n_rand, ne
     spec = SPECS[pid]
     consts = probe_consts(pid, bins["paynet"])
 
-    # ---- design check + behaviours
+    # further parts of the check with their own specification and engine run beside this one
+    import threading
+    parts_res = {}
+
+    def _part(pname, fn):
+        try:
+            parts_res[pname] = fn(pid, tier, seed, wd)
+        except BaseException as e:      # re-raised when the part is joined
+            parts_res[pname] = e
+    part_threads = [(pname, threading.Thread(target=_part, args=(pname, fn))) for pname, fn in extra_parts]
+    for _, th in part_threads:
+        th.start()
+
+    # ---- design check + behaviours (the instances are small: up to three at a time)
     mcs, scripts = [], []
-    for cfg in mc_cfgs:
-        r = vlib.tlc_mc(pid, spec["mc"], cfg, workers=12, timeout=3400 if thorough else 900)
+    from concurrent.futures import ThreadPoolExecutor
+    par = min(3, len(mc_cfgs)) if not thorough else 1
+    with ThreadPoolExecutor(max_workers=par) as ex:
+        mc_results = list(ex.map(lambda cfg: vlib.tlc_mc(pid, spec["mc"], cfg, workers={1: 12, 2: 7, 3: 5}[par], xmx="8g",
+                                                         timeout=3400 if thorough else 900), mc_cfgs))
+    for cfg, r in zip(mc_cfgs, mc_results):
         if r["violated"] or "Deadlock reached" in r["out"]:
             raise vlib.ToolError("design model %s/%s does not meet the observable spec (%s): spec needs correction"
                                  % (spec["mc"], cfg, r["violated"] or "deadlock"))
@@ -876,15 +1206,24 @@ def run_check(pid, tier, seed, mc_cfgs, compile_fn, random_fn, n_tlc, n_rand, ne
         must = must[:per]
         chosen += must + rng.sample(rest, min(len(rest), per - len(must)))
     mutant_res = run_spec_mutants(pid, spec["mc"], mc_mutants) if mc_mutants else []
+    shown = set()
+    for s_ in chosen:
+        shown.update(s_.get("feat", []) if isinstance(s_, dict) else [])
+    missing = [f for f in need_feat if f not in shown]
+    if missing:
+        raise vlib.ToolError("vacuity: no behaviour of %s handed to the engine shows %s" % (spec["mc"], missing))
     conv = [compile_fn(s, rng, consts) for s in chosen]
     rand = [random_fn(rng, consts) for _ in range(n_rand)]
+    fam = []
+    for fname, fn, count in families:
+        fam += [fn(rng) for _ in range(count)]
 
     # ---- real code + trace validation
     nviol, total_events, total_runs = 0, 0, 0
     stats = {}
     summs = {}
     accepted = []
-    for bname, batch in (("tlc", conv), ("rand", rand)):
+    for bname, batch in (("tlc", conv), ("rand", rand), ("async", fam)):
         if not batch:
             continue
         tpath, summ, index = run_engine(pid, bins["paynet"], batch, seed, bname)
@@ -892,7 +1231,7 @@ def run_check(pid, tier, seed, mc_cfgs, compile_fn, random_fn, n_tlc, n_rand, ne
         summs[bname] = summ
         if summ["setup_failures"]:
             raise vlib.ToolError("paynet could not build the network in %d runs" % summ["setup_failures"])
-        if summ["executed"] < 4 * summ["skipped"]:
+        if summ["executed"] < (3 if bname == "async" else 4) * summ["skipped"]:
             raise vlib.ToolError("driver mostly skips: %s" % summ)
         total_runs += summ["runs"]
         for k, v in trace_stats(tpath).items():
@@ -932,6 +1271,16 @@ def run_check(pid, tier, seed, mc_cfgs, compile_fn, random_fn, n_tlc, n_rand, ne
 
     probe_res = run_probes(pid, bins["paynet"], seed, probes) if probes else []
 
+    parts_cov = {}
+    for pname, th in part_threads:
+        th.join()
+        if isinstance(parts_res.get(pname), BaseException):
+            raise parts_res[pname]
+        pv, pcov = parts_res[pname]
+        nviol += pv
+        parts_cov[pname] = pcov
+        vlib.log("[part %s] violations=%d" % (pname, pv))
+
     st = None
     if nviol == 0 and accepted:
         st = selftest(pid, wd, accepted[::-1] if pid == "C04" else accepted[-1], selftests)
@@ -942,14 +1291,19 @@ def run_check(pid, tier, seed, mc_cfgs, compile_fn, random_fn, n_tlc, n_rand, ne
         with open(accepted[0]) as f:
             samples.append({"trace_head": [json.loads(next(f)) for _ in range(8)]})
     covd = {
-        "states": sum(r["distinct"] for _, r in mcs), "transitions": sum(r["states"] for _, r in mcs),
-        "traces_validated_against_impl": total_runs, "samples": samples,
+        "states": sum(r["distinct"] for _, r in mcs) + sum(c.get("states", 0) for c in parts_cov.values()),
+        "transitions": sum(r["states"] for _, r in mcs) + sum(c.get("transitions", 0) for c in parts_cov.values()),
+        "traces_validated_against_impl": total_runs + sum(c.get("traces_validated_against_impl", 0) for c in parts_cov.values()),
+        "samples": samples,
         "mc_runs": [{"cfg": c, "distinct": r["distinct"], "generated": r["states"], "depth": r["depth"],
                      "action_coverage": {a: r["coverage"].get(a, 0) for a in spec["actions"]}, "wall_s": round(r["wall_s"], 1)} for c, r in mcs],
-        "scripts_from_tlc": len(conv), "random_scripts": len(rand), "events_validated": total_events,
+        "scripts_from_tlc": len(conv), "random_scripts": len(rand), "structured_scripts": len(fam), "events_validated": total_events,
+        "mc_features_driven": sorted(shown),
         "engine": summs, "observed": stats, "code_constants": consts, "binding_selftest": st, "exhaustive": False,
         "finding_probes": probe_res, "spec_mutants_refuted": mutant_res,
     }
+    if parts_cov:
+        covd["parts"] = parts_cov
     vlib.write_evidence(pid, tier, seed, "model_checking", covd, assumptions, time.time() - t0, nviol)
     return nviol
 
@@ -958,5 +1312,4 @@ COMMON_ASSUMPTIONS = [
     "every node is the implementation under test; channels close only through a restart of the payer from a stale "
     "manager snapshot (C03) -- a run in which a channel closes otherwise is not judged at quiescence",
     "channel value 400,000 sat so that a node's summed balance fits TLC's 32-bit integers; fee estimators constant",
-    "monitor persistence completes synchronously",
 ]
